@@ -383,6 +383,10 @@ func (d *Data) CleaveLabel(v dvid.VersionID, label uint64, info dvid.ModInfo, r 
 		err = fmt.Errorf("bad cleave supervoxels JSON: %v", err)
 		return
 	}
+	if len(cleaveSupervoxels) == 0 {
+		err = fmt.Errorf("no supervoxels given to cleave from label %d", label)
+		return
+	}
 
 	// send kafka cleave event to instance-uuid topic
 	mutID = d.NewMutationID()
